@@ -392,6 +392,14 @@ def seipdv2(ctx, P):
         lg = [i for i, t in b.switches() if has_origin(b.switch_origins(i), r'field:StreamDecryptor\.in_buffer_end$')]
         ok, wit = must_pass(b, fin, lg)
         ctx.check(P + ':v2:decrypt_last:drain-loop', 'R-dom', 'the final tag is checked only after the in_buffer_end > 0 loop', ok and bool(lg) and bool(b.calls(r'StreamDecryptor.*::decrypt$')), function=b.path)
+        # ... and that loop is left only when NOTHING is left: the guard compares in_buffer_end with 0, so octets between the last chunk and
+        # the final tag are handed to decrypt() (authenticated or rejected), never skipped
+        zero = [g for g, op, side in direct_cmp_switches(b, lambda k, v: k == 'place' and bool(v.get('pr')) and v['pr'][-1].endswith('.in_buffer_end'), lambda c: c == 0)]
+        other = [g for g in lg if g not in zero]
+        okz, _ = must_pass(b, fin, zero) if zero else (False, None)
+        ctx.check(P + ':v2:decrypt_last:drains-to-zero', 'R-dom', 'the drain loop before the final tag ends only at in_buffer_end == 0 (no ciphertext octet before the final tag is skipped)',
+                  okz and not other, function=b.path, guards=[site(b, g) for g in zero],
+                  missing=None if (okz and not other) else 'the loop guard is not a comparison of in_buffer_end with 0')
 
     b = ctx.body(AD + 'decrypt')
     if b is not None:
